@@ -18,13 +18,16 @@ pub fn new_box(area: &str) -> Option<Box<dyn VerifBox>> {
         "c17" => Some(Box::new(
             crate::protocol::libp2p::kademlia::verif_c17::StoreBox::new(),
         )),
+        "c10" => Some(Box::new(
+            crate::transport::manager::handle::verif_c10::AddrBox::new(),
+        )),
         _ => None,
     }
 }
 
 /// Names of all adapters.
 pub fn areas() -> Vec<&'static str> {
-    vec!["c17"]
+    vec!["c10", "c17"]
 }
 
 /// Decode a hex string.
